@@ -62,7 +62,7 @@ def load():
 # ---------------------------------------------------------------------------------------------
 # watchdog
 
-_WATCHDOG_S = float(os.environ.get("VERIF_WATCHDOG_S", "10"))
+_WATCHDOG_S = float(os.environ.get("VERIF_WATCHDOG_S", "4"))
 
 
 def _on_alarm(signum, frame):
@@ -127,10 +127,23 @@ def step_budget(nbytes):
     return 3 * nbytes + 16
 
 
+hang_count = 0
+HANG_LIMIT = int(os.environ.get("VERIF_HANG_LIMIT", "3"))
+
+
 def run_parse(text, parser=None, want_tree=True, want_config=False, via_file=None, keep_parser=False):
     """Run Parser.parse(text) on the implementation under test."""
+    global hang_count
     ns = load()
     from . import canon
+
+    if hang_count >= HANG_LIMIT:
+        # fail fast: this worker already reported HANG_LIMIT hangs (each costs a watchdog period); the rest of
+        # its task is skipped - the check has failed anyway and says so
+        o = Obs()
+        o.verdict = "SKIPPED"
+        o.steps = 0
+        return o
 
     if parser is None:
         parser = ns.parser.Parser()
@@ -170,6 +183,7 @@ def run_parse(text, parser=None, want_tree=True, want_config=False, via_file=Non
     except Hang as h:
         obs.verdict = "HANG"
         obs.exc = str(h)
+        hang_count += 1
     except RecursionError as e:
         obs.verdict = "EXC"
         obs.exc = "RecursionError"
